@@ -15,6 +15,13 @@ def cases(tier):
                             timeout=300, funcs=[fn], desc='%s == reference for all %d-byte inputs' % (fn, n)))
             out.append(Case('c18.mem.%s.n%d' % (alg, n), 'hash.c', {'VF_ALG': code, 'VF_N': n, 'VF_NOEQ': None}, unwind=n + 2, checks='safety',
                             safety_owner='C18', timeout=300, funcs=[fn], desc='%s reads exactly the %d given bytes (exactly sized heap buffer)' % (fn, n)))
+    # alignment independence: the same equalities with the message at offsets 1..7 of its heap object
+    offs = {'quick': {'MUR128': [(1, 16), (4, 17), (7, 33), (3, 40)], 'MUR32': [(1, 4), (3, 9), (2, 16)], 'FNV32': [(1, 5)], 'FNV64': [(3, 9)]},
+            'thorough': {a: [(o, n) for o in range(1, 8) for n in (1, 7, 16, 17, 31, 32, 33, 48)] for a in ALGS}}[tier]
+    for alg, (code, fn) in ALGS.items():
+        for (o, n) in offs.get(alg, []):
+            out.append(Case('c18.eq.%s.n%d.off%d' % (alg, n, o), 'hash.c', {'VF_ALG': code, 'VF_N': n, 'VF_OFF': o}, unwind=n + 2, checks='func', backend='z3',
+                            timeout=60, funcs=[fn], desc='%s == reference for all %d-byte inputs placed at offset %d of their heap object (address not a multiple of 8)' % (fn, n, o)))
     out.append(SmtCase('c18.lemma.fnv32prime', 'fnv32_prime.smt2', ['cvc5', 'z3'], desc='forall h: shift-add form == h * 0x01000193 mod 2^32', funcs=['qhashfnv1_32']))
     out.append(SmtCase('c18.lemma.fnv64prime', 'fnv64_prime.smt2', ['cvc5', 'cvc5 --solve-bv-as-int=sum'], desc='forall h: shift-add form == h * 0x100000001b3 mod 2^64', funcs=['qhashfnv1_64']))
     out.append(Case('c18.md5.transform', 'md5.c', {'VF_MODE': 1}, unwind=66, checks='func', backend='z3', timeout=900, funcs=['MD5Transform'],
@@ -45,7 +52,7 @@ def meta(tier):
     mx = MAXN[tier]
     return {'level': 'model_checking',
             'bounds': {k: ('lengths 1..%d' % v if isinstance(v, int) else 'lengths %s' % v) for k, v in mx.items()},
-            'outside': ['lengths above the bound', 'buffer alignment (not modelled by CBMC: every access is byte-precise)', 'files larger than 8 bytes; offsets/lengths near the off_t limits',
+            'outside': ['lengths above the bound', 'alignment faults of the host CPU (CBMC accesses are byte-precise); alignment DEPENDENCE of the result is covered by the offset queries', 'files larger than 8 bytes; offsets/lengths near the off_t limits',
                         'big-endian hosts (the build under test is little-endian, as is the reference block assembly)'],
             'stubs': ['in-memory file model for open/fstat/lseek/read/close (short reads and errors solver-chosen)',
                       'MD5 primitives replaced by a byte-stream recorder in the file query',
